@@ -11,12 +11,17 @@ import (
 // C09: integer literals keep their exact value through print and parse; every
 // accepted notation denotes the mathematically correct value for the width.
 
-var hWidthsQuick = [...]uint64{1, 2, 7, 8, 13, 16, 32, 64}
-var hWidthsThorough = [...]uint64{1, 2, 3, 4, 5, 6, 7, 8, 9, 10, 11, 12, 13, 14, 15, 16, 31, 32, 33, 63, 64, 65, 128}
+// widths: both neighbours of every machine-word boundary in the quick tier;
+// every width up to 72 and the 128-bit boundary in the thorough tier
+var hWidthsQuick = [...]uint64{1, 2, 7, 8, 13, 16, 31, 32, 33, 63, 64, 65}
 
 func hWidth() uint64 {
 	if vfTier() > 0 {
-		return hWidthsThorough[vfChoice("w", len(hWidthsThorough))]
+		k := vfChoice("w", 75)
+		if k < 72 {
+			return uint64(k + 1)
+		}
+		return uint64(127 + k - 72)
 	}
 	return hWidthsQuick[vfChoice("w", len(hWidthsQuick))]
 }
